@@ -306,6 +306,42 @@ PROPS["C06"] = {
                          "C06_codec (key codec round trip) is checked by S only"],
 }
 
+PROPS["C05"] = {
+    "lean_modules": ["MithrilModel.Properties.C05"],
+    "theorems": ["C05.C05_total_single_signature", "C05.C05_total_registration_entry", "C05.C05_total_signature_with_party",
+                 "C05.C05_total_batch_path", "C05.C05_total_concatenation_proof", "C05.C05_total_aggregate_signature",
+                 "C05.C05_signature_with_party_panic_prefix", "C05.C05_signature_with_party_fixed", "C05.C05_bounded_loop",
+                 "LegacyDec.singleSig_total", "LegacyDec.proof_total", "LegacyDec.idxLoop_ok_bound"],
+    "level_text": "PARTIAL. For the hand-written legacy byte decoders of mithril-stm (single signature, registration entry, signature+party, "
+                  "batch path, concatenation proof, aggregate signature) totality is a Lean theorem for EVERY input: the model spells out each "
+                  "checked / unchecked addition and multiplication of the Rust code and is proved never to reach a panic outcome, for the code "
+                  "after the fix commit (the pre-fix panic is kept as a proved counter-example); loop work is bounded by the input length. The "
+                  "model is compared (ok + decoded value / err / panic) with the real from_bytes on hand-assembled legacy layouts truncated at "
+                  "every length and with every 8-byte window set to 13 boundary values. The third-party codecs (ciborium, serde_json, bincode, "
+                  "hex) are not modelled: for every public byte / hex / JSON entry point the harness runs honest encodings, round trips and "
+                  "structure-aware and random mutations under a panic hook and a counting allocator — that part is a test, labelled as such.",
+    "level_note": "Proof covers the legacy decoders only; BLS point validation is an oracle of the model; nested payloads that take the CBOR branch "
+                  "are declared outside the model (counted in evidence). The unbounded recursion of MKMapProof::from_bytes (bincode, nested proofs) "
+                  "is a known finding demonstrated in a child process every run.",
+    "harness": [("harness", "c05")],
+    "anchors": ["mithril-stm/src/codec.rs", "mithril-stm/src/proof_system/concatenation/proof.rs", "mithril-stm/src/protocol/aggregate_signature/signature.rs",
+                "mithril-stm/src/protocol/single_signature/signature.rs", "mithril-stm/src/protocol/single_signature/signature_registered_party.rs",
+                "mithril-stm/src/membership_commitment/merkle_tree/path.rs", "mithril-stm/src/membership_commitment/merkle_tree/commitment.rs",
+                "mithril-common/src/crypto_helper/types/protocol_key.rs", "mithril-common/src/crypto_helper/codec/binary.rs",
+                "internal/mithril-merkle-tree/src/merkle_tree.rs", "internal/mithril-merkle-tree/src/merkle_map.rs"],
+    "rule": "K cases: legacy layouts of a single signature, a signature+party and an aggregate signature built from real components: honest, "
+            "every truncation, every 8-byte window overwritten with {0,1,2,len-1,len,len+1,2^32,2^44,2^61,2^63,2^64-9,2^64-8,2^64-1} (all "
+            "windows for short inputs, sampled for the aggregate), trailing garbage, the fixed-finding inputs; non-trivial = all; distinct "
+            "request lines. In addition (not counted as cases) ~28 000 (quick) guarded decoder calls over 20 entry points",
+    "trivial_tags": ["cbor-branch"],
+    "trusted_base": ["rustc/cargo; harness bin c05 (panic hook, counting global allocator, child process for the stack-overflow witness)",
+                     "ciborium, serde_json, bincode, hex: exercised, not modelled"],
+    "assumptions": ["inputs are shorter than 2^63 bytes (every Rust slice is)", "dev-profile overflow checks"],
+    "goals_not_proved": ["C05_alloc_bound as a quantitative theorem (every allocation <= c*|bytes|+c'): only the loop bound is proved; allocation is measured by the harness",
+                         "C05_legacy_roundtrip (Dec (Enc v) = v): checked by S on real values",
+                         "totality of the CBOR / JSON / bincode / hex paths: not modelled (fuzzed)"],
+}
+
 
 # property configurations contributed as separate files: props.d/Cxx.py defines `CONFIG = {...}`
 import glob as _glob, os as _os, importlib.util as _ilu
